@@ -121,6 +121,13 @@ META.update({
 "C03b":dict(breaks="C03: compute_element_volumes_axisymmetric takes the radius at the quadrature points from the vertex nodes and vertex shape functions only ('elements are affine'): exact for linear triangles, wrong for order >= 2 or bubble elements where the vertex functions alone do not reproduce a linear field",
   needs="mode2D='axisymmetric' AND element order >= 2 (or bubble); Cartesian mode and linear axisymmetric elements (the only axisymmetric configuration the upstream tests use) are unchanged"),
 })
+
+META.update({
+"C12":dict(breaks="C12: the exact test `x2 == x1` in the shared derivative rule (_symmetric_matrix_function_jvp_helper.rd) replaced by np.isclose (rtol 1e-5, atol 1e-8): pairs that are merely close, or merely small, get f'(lam) instead of the divided difference",
+  needs="a derivative (jvp) of sqrt/exp/log/pow_symm at a tensor with two eigenvalues within ~1e-5 relative but further apart than 5e-9, or with all eigenvalues below ~1e-8 in absolute size; well separated O(1) spectra, exactly repeated pairs and gaps <= 1e-10 are unaffected"),
+"C12b":dict(breaks="C12: the same exact test replaced by an ABSOLUTE tolerance |x2 - x1| <= eps: harmless for O(1) tensors, but every pair of a tensor of magnitude <= 1e-16 counts as repeated",
+  needs="a derivative of sqrt/log/pow_symm at scale 1e-16 and below with eigenvalues distinct in relative terms (ratio 1:2:4): 5-15 percent error; function values, exp_symm and ordinary scales unaffected"),
+})
 for pid in sys.argv[1:]:
     p='/verif/seeded/%s/meta.json'%pid
     if not os.path.exists(p): print('no meta for',pid); continue
